@@ -1,5 +1,444 @@
-(* C07 — lemmas. *)
+(* C07 — lemmas: handler table, scope vectors, one open, a batch. *)
 From Coq Require Import List Arith ZArith Bool Lia.
 From Verif Require Import lib.Wire c07.Model c07.Spec.
 Import ListNotations.
 Local Open Scope Z_scope.
+
+(* ---- membership ------------------------------------------------------------ *)
+Lemma memz_In : forall x l, memz x l = true <-> In x l.
+Proof.
+  intros x l. unfold memz. rewrite existsb_exists. split.
+  - intros [y [Hy E]]. apply Z.eqb_eq in E. subst. exact Hy.
+  - intros H. exists x. split; [exact H | apply Z.eqb_refl].
+Qed.
+
+Lemma memz_false : forall x l, memz x l = false <-> ~ In x l.
+Proof.
+  intros x l. rewrite <- memz_In. destruct (memz x l); split; intros; try discriminate; auto.
+  exfalso. apply H. reflexivity.
+Qed.
+
+Lemma memz_filter : forall f x l, memz x (filter f l) = true -> f x = true /\ memz x l = true.
+Proof.
+  intros f x l H. apply memz_In in H. apply filter_In in H. destruct H as [H1 H2].
+  split; [exact H2 | apply memz_In; exact H1].
+Qed.
+
+Lemma memz_app : forall x a b, memz x (a ++ b) = memz x a || memz x b.
+Proof. intros. unfold memz. apply existsb_app. Qed.
+
+(* ---- handler table ---------------------------------------------------------- *)
+Lemma find_handler_some : forall t p h, find_handler t p = Some h ->
+  In h t /\ memz p (h_acc h) = true.
+Proof. intros t p h H. unfold find_handler in H. apply find_some in H. exact H. Qed.
+
+(* the handler that runs is the FIRST entry in table order accepting p *)
+Lemma find_handler_first : forall t p h, find_handler t p = Some h ->
+  exists pre post, t = pre ++ h :: post /\ memz p (h_acc h) = true /\
+                   forall x, In x pre -> memz p (h_acc x) = false.
+Proof.
+  induction t as [|a t IH]; intros p h H; [discriminate|].
+  unfold find_handler in H. cbn [find] in H. destruct (memz p (h_acc a)) eqn:E.
+  - inversion H; subst. exists [], t. repeat split; auto. intros x [].
+  - destruct (IH p h H) as [pre [post [E1 [E2 E3]]]]. exists (a :: pre), post.
+    subst t. repeat split; auto. intros x [Hx|Hx]; [subst; exact E | auto].
+Qed.
+
+Lemma supports_matched : forall t p, supports t p = matched t p.
+Proof.
+  intros t p. unfold supports, matched, find_handler.
+  induction t as [|a t IH]; [reflexivity|]. cbn [find existsb].
+  destruct (memz p (h_acc a)); [reflexivity | exact IH].
+Qed.
+
+Lemma supports_false_none : forall t p, supports t p = false -> find_handler t p = None.
+Proof. intros t p H. unfold supports in H. destruct (find_handler t p); [discriminate|reflexivity]. Qed.
+
+Lemma supports_true_some : forall t p, supports t p = true -> exists h, find_handler t p = Some h.
+Proof. intros t p H. unfold supports in H. destruct (find_handler t p) as [h|]; [exists h; reflexivity|discriminate]. Qed.
+
+Lemma find_handler_live_match : forall t p h, find_handler t p = Some h ->
+  live_match t (h_reg h) p = true.
+Proof.
+  intros t p h H. apply find_handler_some in H. destruct H as [Hin Hm].
+  unfold live_match. apply existsb_exists. exists h. split; [exact Hin|].
+  rewrite Z.eqb_refl. exact Hm.
+Qed.
+
+Lemma remove_handler_subset : forall name t x, In x (remove_handler name t) -> In x t.
+Proof.
+  induction t as [|a t IH]; intros x H; [exact H|]. cbn [remove_handler] in H.
+  destruct (h_name a =? name); [right; exact H|]. destruct H as [H|H]; [left; exact H | right; auto].
+Qed.
+
+Lemma filter_all_true : forall {A} (f : A -> bool) l, (forall x, In x l -> f x = true) -> filter f l = l.
+Proof.
+  induction l as [|a l IH]; intros H; [reflexivity|]. cbn [filter].
+  rewrite (H a (or_introl eq_refl)). f_equal. apply IH. intros x Hx. apply H. right. exact Hx.
+Qed.
+
+Lemma NoDup_snoc : forall {A} (l : list A) x, NoDup l -> ~ In x l -> NoDup (l ++ [x]).
+Proof.
+  induction l as [|a l IH]; intros x ND Hx; cbn [app].
+  - constructor; [intros []|constructor].
+  - inversion ND; subst. constructor.
+    + intros Hin. apply in_app_or in Hin. destruct Hin as [Hin|[Hin|[]]]; [auto|].
+      subst. apply Hx. left. reflexivity.
+    + apply IH; [assumption|]. intros Hin. apply Hx. right. exact Hin.
+Qed.
+
+Lemma remove_handler_filter : forall name t, NoDup (map h_name t) ->
+  remove_handler name t = filter (fun e => negb (h_name e =? name)) t.
+Proof.
+  induction t as [|a t IH]; intros ND; [reflexivity|]. cbn [remove_handler filter].
+  cbn [map] in ND. inversion ND as [|x l Hnotin ND']; subst.
+  destruct (h_name a =? name) eqn:E; cbn [negb].
+  - apply Z.eqb_eq in E. symmetry. apply filter_all_true.
+    intros y Hy. apply negb_true_iff. apply Z.eqb_neq. intros Heq. apply Hnotin.
+    rewrite E, <- Heq. apply in_map. exact Hy.
+  - f_equal. apply IH. exact ND'.
+Qed.
+
+Lemma filter_names_nodup : forall (f : hent -> bool) t, NoDup (map h_name t) -> NoDup (map h_name (filter f t)).
+Proof.
+  induction t as [|a t IH]; intros ND; [exact ND|]. cbn [map] in ND. inversion ND; subst.
+  cbn [filter]. destruct (f a); [|auto]. cbn [map]. constructor; [|auto].
+  intros Hin. apply H1. apply in_map_iff in Hin. destruct Hin as [y [E Hy]].
+  apply filter_In in Hy. rewrite <- E. apply in_map. tauto.
+Qed.
+
+Lemma add_handler_live : forall t name acc reg, NoDup (map h_name t) ->
+  add_handler t name acc reg = live_add t name acc reg /\
+  NoDup (map h_name (add_handler t name acc reg)).
+Proof.
+  intros t name acc reg ND. unfold add_handler, live_add. rewrite (remove_handler_filter name t ND).
+  split; [reflexivity|]. rewrite map_app. cbn [map h_name].
+  apply NoDup_snoc; [apply filter_names_nodup; exact ND|].
+  intros Hin. apply in_map_iff in Hin. destruct Hin as [y [E Hy]]. apply filter_In in Hy.
+  destruct Hy as [_ Hy]. apply negb_true_iff in Hy. apply Z.eqb_neq in Hy. auto.
+Qed.
+
+(* ---- one open --------------------------------------------------------------- *)
+Definition same_counts (b b' : bst) : Prop :=
+  b_out b' = b_out b /\ b_in b' = b_in b /\ b_held b' = b_held b /\ b_nslot b' = b_nslot b.
+
+(* everything one NewStream + first use can do, as the theorems need it *)
+Inductive outcome (c : cfg) (t : table) (kn : list Z) (b : bst) (reqs : list Z)
+  : bst -> ores -> Prop :=
+| OutObtained : forall p h b',
+    In p reqs -> find_handler t p = Some h ->
+    b_out b' = upd (b_out b) p (b_out b p + 1) ->
+    b_in b' = upd (b_in b) p (b_in b p + 1) ->
+    b_held b' = b_held b ++ [(b_nslot b, p)] -> b_nslot b' = b_nslot b + 1 ->
+    (b_add b' = b_add b \/ b_add b' = b_add b ++ [p]) ->
+    scope_try (limD c) (b_out b) p = Some (b_out b') ->
+    scope_try (limL c) (b_in b) p = Some (b_in b') ->
+    outcome c t kn b reqs b' (obtained_res p (h_reg h))
+| OutFail : forall code,
+    code <> 0 -> outcome c t kn b reqs b (fail_res code)
+| OutUseFailed : forall p b',
+    In p reqs -> same_counts b b' ->
+    (b_add b' = b_add b \/ b_add b' = b_add b ++ [p]) ->
+    ((supports t p = false /\ memz p kn = true) \/
+     (supports t p = true /\ scope_try (limL c) (b_in b) p = None)) ->
+    outcome c t kn b reqs b' (use_failed p)
+| OutDialerRefused : forall p h,
+    In p reqs -> find_handler t p = Some h ->
+    outcome c t kn b reqs b (mkO 2 (-1) (-1) (-1) (-1) 0 (-1) (-1) [(h_reg h, p)]).
+
+Section Generic.
+  Variable ms_select : (Z -> bool) -> list Z -> option Z.
+  Variable ms_lazy : (Z -> bool) -> Z -> bool.
+  (* the documented behaviour of go-multistream the proofs rely on *)
+  Hypothesis ms_select_some : forall sup l p, ms_select sup l = Some p ->
+    exists l1 l2, l = l1 ++ p :: l2 /\ sup p = true /\ (forall q, In q l1 -> sup q = false).
+  Hypothesis ms_select_none : forall sup l, ms_select sup l = None ->
+    forall q, In q l -> sup q = false.
+  Hypothesis ms_lazy_spec : forall sup p, ms_lazy sup p = sup p.
+
+  Lemma ms_select_in : forall sup l p, ms_select sup l = Some p -> In p l /\ sup p = true.
+  Proof.
+    intros sup l p H. destruct (ms_select_some _ _ _ H) as [l1 [l2 [E [S _]]]].
+    split; [|exact S]. subst l. apply in_or_app. right. left. reflexivity.
+  Qed.
+
+  Lemma pref_found : forall t kn extra reqs p,
+    find (fun r => memz r kn || memz r (filter (supports t) extra)) reqs = Some p ->
+    In p reqs /\ (memz p kn = true \/ supports t p = true).
+  Proof.
+    intros t kn extra reqs p H. apply find_some in H. destruct H as [Hin H]. split; [exact Hin|].
+    apply orb_true_iff in H. destruct H as [H|H]; [left; exact H|].
+    right. apply memz_filter in H. tauto.
+  Qed.
+
+  Lemma open1_outcome : forall c t kn b reqs extra race b' r,
+    open1 ms_select ms_lazy c t kn b reqs extra race = (b', r) ->
+    outcome c t kn b reqs b' r.
+  Proof.
+    intros c t kn b reqs extra race b' r H. unfold open1 in H.
+    destruct (find _ reqs) as [p|] eqn:Epref.
+    - (* optimistic *)
+      apply pref_found in Epref. destruct Epref as [Hin Hk].
+      destruct (scope_try (limD c) (b_out b) p) as [out'|] eqn:ED.
+      2:{ inversion H; subst. apply OutFail. discriminate. }
+      assert (Eout : out' = upd (b_out b) p (b_out b p + 1)).
+      { unfold scope_try in ED. destruct (_ || _); inversion ED. reflexivity. }
+      rewrite ms_lazy_spec in H.
+      destruct (supports t p) eqn:Esup.
+      + destruct (supports_true_some t p Esup) as [h Eh]. rewrite Eh in H.
+        destruct (scope_try (limL c) (b_in b) p) as [in'|] eqn:EL.
+        * inversion H; subst. apply OutObtained; cbn; auto.
+          unfold scope_try in EL. destruct (_ || _); inversion EL. reflexivity.
+        * inversion H; subst. apply OutUseFailed;
+            [exact Hin | repeat split | left; reflexivity | right; split; assumption].
+      + inversion H; subst. apply OutUseFailed; [exact Hin | repeat split | left; reflexivity |].
+        left. split; [exact Esup|]. destruct Hk as [Hk|Hk]; [exact Hk|discriminate Hk].
+    - destruct reqs as [|r0 reqs'] eqn:Ereqs.
+      { inversion H; subst. apply OutFail. discriminate. }
+      rewrite <- Ereqs in *. clear Ereqs.
+      destruct (ms_select (supports t) reqs) as [p|] eqn:Esel.
+      2:{ inversion H; subst. apply OutFail. discriminate. }
+      destruct (ms_select_in _ _ _ Esel) as [Hin Hsup].
+      destruct (find_handler t p) as [h|] eqn:Eh.
+      2:{ inversion H; subst. apply OutFail. discriminate. }
+      destruct (scope_try (limL c) (b_in b) p) as [in'|] eqn:EL.
+      + destruct (scope_try (limD c) (b_out b) p) as [out'|] eqn:ED.
+        * inversion H; subst. apply OutObtained; cbn; auto.
+          -- unfold scope_try in ED. destruct (_ || _); inversion ED. reflexivity.
+          -- unfold scope_try in EL. destruct (_ || _); inversion EL. reflexivity.
+        * inversion H; subst. apply OutDialerRefused; assumption.
+      + destruct race.
+        * inversion H; subst. apply OutFail. discriminate.
+        * destruct (scope_try (limD c) (b_out b) p) as [out'|] eqn:ED.
+          -- inversion H; subst. apply OutUseFailed;
+               [exact Hin | repeat split | right; reflexivity | right; split; assumption].
+          -- inversion H; subst. apply OutFail. discriminate.
+  Qed.
+End Generic.
+
+(* ---- scope vectors ------------------------------------------------------------ *)
+Lemma zrange_length : forall n a, length (zrange a n) = n.
+Proof. induction n; intros; cbn [zrange length]; [reflexivity | rewrite IHn; reflexivity]. Qed.
+
+Lemma zrange_nth : forall n a k d, (k < n)%nat -> nth k (zrange a n) d = a + Z.of_nat k.
+Proof.
+  induction n; intros a k d H; [lia|]. cbn [zrange]. destruct k; cbn [nth]; [lia|].
+  rewrite IHn by lia. lia.
+Qed.
+
+Lemma zrange_In : forall n a x, In x (zrange a n) <-> a <= x < a + Z.of_nat n.
+Proof.
+  induction n; intros a x; cbn [zrange In]; [lia|]. rewrite IHn. lia.
+Qed.
+
+Lemma universe_In : forall U x, In x (universe U) <-> 0 <= x < U.
+Proof. intros U x. unfold universe. rewrite zrange_In. lia. Qed.
+
+Lemma vec_at_out : forall U o i q, 0 <= q < U -> vec_at (scope_vec U o i) q = o q.
+Proof.
+  intros U o i q H. unfold vec_at, scope_vec, universe.
+  rewrite app_nth1 by (rewrite map_length, zrange_length; lia).
+  rewrite (nth_indep _ 0 (o 0)) by (rewrite map_length, zrange_length; lia).
+  rewrite map_nth. rewrite zrange_nth by lia. f_equal. lia.
+Qed.
+
+Lemma vec_at_in : forall U o i q, 0 <= q < U -> vec_at (scope_vec U o i) (U + q) = i q.
+Proof.
+  intros U o i q H. unfold vec_at, scope_vec, universe.
+  rewrite app_nth2 by (rewrite map_length, zrange_length; lia).
+  rewrite map_length, zrange_length.
+  replace (Z.to_nat (U + q) - Z.to_nat U)%nat with (Z.to_nat q) by lia.
+  rewrite (nth_indep _ 0 (i 0)) by (rewrite map_length, zrange_length; lia).
+  rewrite map_nth. rewrite zrange_nth by lia. f_equal. lia.
+Qed.
+
+Lemma canon_know_mem : forall U k p, 0 <= p < U -> memz p (canon_know U k) = memz p k.
+Proof.
+  intros U k p H. unfold canon_know. destruct (memz p k) eqn:E.
+  - apply memz_In. apply filter_In. split; [apply universe_In; exact H | exact E].
+  - apply memz_false. intros Hin. apply filter_In in Hin. destruct Hin as [_ Hin]. congruence.
+Qed.
+
+Lemma scope_try_none : forall lim cnt p, scope_try lim cnt p = None -> 0 <= lim p <= cnt p.
+Proof.
+  intros lim cnt p H. unfold scope_try in H.
+  destruct (lim p <? 0) eqn:E1; [discriminate|]. destruct (cnt p <? lim p) eqn:E2; [discriminate|].
+  apply Z.ltb_ge in E1. apply Z.ltb_ge in E2. lia.
+Qed.
+
+(* ---- one open satisfies the per-open clauses of the monitor ------------------- *)
+Definition in_range (U : Z) (l : list Z) : Prop := forall p, In p l -> 0 <= p < U.
+Definition wf_cfg (has_scope : bool) (c : cfg) : Prop :=
+  has_scope = true \/ forall p, limL c p < 0.
+
+Lemma outcome_open_ok : forall U has_scope c t kn knm b reqs b' r fo fin,
+  outcome c t kn b reqs b' r ->
+  in_range U reqs -> wf_cfg has_scope c ->
+  (forall p, 0 <= p < U -> memz p knm = memz p kn) ->
+  (forall p, b_in b p <= fin p) ->
+  open_ok U has_scope (limL c) t knm (scope_vec U fo fin) reqs r = true.
+Proof.
+  intros U has_scope c t kn knm b reqs b' r fo fin Hout Hrange Hwf Hkn Hmono.
+  unfold open_ok. destruct Hout as [p h b' Hin Hf _ _ _ _ _ | code Hcode | p b' Hin _ _ Hex | p h Hin Hf].
+  - (* obtained *)
+    cbn [obtained_res o_res o_dp o_use o_h o_lp o_ninv o_hreg o_hlp obtained].
+    assert (Hm : memz p reqs = true) by (apply memz_In; exact Hin).
+    pose proof (find_handler_live_match t p h Hf) as Hlm.
+    assert (Hc : common t reqs = true).
+    { unfold common. apply existsb_exists. exists p. split; [exact Hin|].
+      rewrite <- supports_matched. unfold supports. rewrite Hf. reflexivity. }
+    rewrite Hm, Hlm, Hc, !Z.eqb_refl. reflexivity.
+  - (* open failed *)
+    unfold fail_res, obtained. cbn [o_res o_dp o_use o_h o_lp o_ninv o_hreg o_hlp].
+    assert (E : (code =? 0) = false) by (apply Z.eqb_neq; exact Hcode).
+    rewrite E. cbn. destruct (common t reqs); reflexivity.
+  - (* returned, first use failed *)
+    unfold use_failed, obtained. cbn [o_res o_dp o_use o_h o_lp o_ninv o_hreg o_hlp].
+    assert (Hm : memz p reqs = true) by (apply memz_In; exact Hin).
+    rewrite Hm. cbn [Z.eqb implb andb negb orb]. rewrite <- supports_matched.
+    pose proof (Hrange p Hin) as Hp.
+    destruct Hex as [[Hs Hk] | [Hs Hfull]].
+    + rewrite Hs. rewrite (Hkn p Hp), Hk. cbn. destruct (common t reqs); reflexivity.
+    + rewrite Hs. cbn [negb andb orb].
+      assert (Hc : common t reqs = true).
+      { unfold common. apply existsb_exists. exists p. split; [exact Hin|].
+        rewrite <- supports_matched. exact Hs. }
+      rewrite Hc. cbn [negb implb andb].
+      apply scope_try_none in Hfull. rewrite vec_at_in by exact Hp.
+      destruct Hwf as [Hhs | Hneg].
+      * rewrite Hhs. cbn [andb].
+        assert (E1 : (0 <=? limL c p) = true) by (apply Z.leb_le; lia).
+        assert (E2 : (limL c p <=? fin p) = true) by (apply Z.leb_le; specialize (Hmono p); lia).
+        rewrite E1, E2. reflexivity.
+      * specialize (Hneg p). lia.
+  - (* dialer refused after the listener dispatched *)
+    unfold obtained. cbn [o_res o_dp o_use o_h o_lp o_ninv o_hreg o_hlp]. cbn.
+    destruct (common t reqs); reflexivity.
+Qed.
+
+(* ---- a batch -------------------------------------------------------------------- *)
+Inductive outcomes (c : cfg) (t : table) (kn : list Z)
+  : bst -> list (list Z) -> bst -> list ores -> Prop :=
+| OutsNil : forall b, outcomes c t kn b [] b []
+| OutsCons : forall b q b1 r qs b2 rs,
+    outcome c t kn b q b1 r -> outcomes c t kn b1 qs b2 rs ->
+    outcomes c t kn b (q :: qs) b2 (r :: rs).
+
+Definition reqs_of (opens : list (list Z * list Z * bool)) : list (list Z) :=
+  map (fun x => fst (fst x)) opens.
+
+Section GenericBatch.
+  Variable ms_select : (Z -> bool) -> list Z -> option Z.
+  Variable ms_lazy : (Z -> bool) -> Z -> bool.
+  Hypothesis ms_select_some : forall sup l p, ms_select sup l = Some p ->
+    exists l1 l2, l = l1 ++ p :: l2 /\ sup p = true /\ (forall q, In q l1 -> sup q = false).
+  Hypothesis ms_lazy_spec : forall sup p, ms_lazy sup p = sup p.
+
+  Lemma run_batch_outcomes : forall opens c t kn b b' rs,
+    run_batch ms_select ms_lazy c t kn b opens = (b', rs) ->
+    outcomes c t kn b (reqs_of opens) b' rs.
+  Proof.
+    induction opens as [|[[q e] rc] opens IH]; intros c t kn b b' rs H; cbn [run_batch] in H.
+    - inversion H; subst. constructor.
+    - destruct (open1 ms_select ms_lazy c t kn b q e rc) as [b1 o] eqn:E1.
+      destruct (run_batch ms_select ms_lazy c t kn b1 opens) as [b2 os] eqn:E2.
+      inversion H; subst. cbn [reqs_of map fst]. econstructor.
+      + eapply open1_outcome; eauto.
+      + apply IH. exact E2.
+  Qed.
+End GenericBatch.
+
+Lemma count_if_nonneg : forall {A} (f : A -> bool) l, 0 <= count_if f l.
+Proof. induction l; cbn [count_if fold_right]; [lia|]. fold (count_if f l). destruct (f a); lia. Qed.
+
+Lemma count_if_cons : forall {A} (f : A -> bool) a l,
+  count_if f (a :: l) = (if f a then 1 else 0) + count_if f l.
+Proof. intros. unfold count_if. cbn [fold_right]. destruct (f a); lia. Qed.
+
+Lemma outcome_mono : forall c t kn b q b' r, outcome c t kn b q b' r ->
+  (forall p, b_in b p <= b_in b' p) /\ (forall p, b_out b p <= b_out b' p).
+Proof.
+  intros c t kn b q b' r H.
+  destruct H as [p h b' _ _ Eo Ei _ _ _ | code _ | p b' _ [Eo [Ei _]] _ _ | p h _ _].
+  - rewrite Eo, Ei. unfold upd. split; intros x; destruct (x =? p) eqn:E; try lia;
+      apply Z.eqb_eq in E; subst; lia.
+  - split; intros; lia.
+  - rewrite Eo, Ei. split; intros; lia.
+  - split; intros; lia.
+Qed.
+
+Lemma outcomes_mono : forall c t kn b qs b' rs, outcomes c t kn b qs b' rs ->
+  forall p, b_in b p <= b_in b' p.
+Proof.
+  intros c t kn b qs b' rs H. induction H; intros p; [lia|].
+  pose proof (proj1 (outcome_mono _ _ _ _ _ _ _ H) p). specialize (IHoutcomes p). lia.
+Qed.
+
+Lemma outcomes_length : forall c t kn b qs b' rs, outcomes c t kn b qs b' rs ->
+  length qs = length rs.
+Proof. intros. induction H; cbn [length]; congruence. Qed.
+
+Lemma outcomes_open_ok : forall U has_scope c t kn knm fo fin b qs b' rs,
+  outcomes c t kn b qs b' rs ->
+  (forall q, In q qs -> in_range U q) -> wf_cfg has_scope c ->
+  (forall p, 0 <= p < U -> memz p knm = memz p kn) ->
+  (forall p, b_in b' p <= fin p) ->
+  forallb (fun x => open_ok U has_scope (limL c) t knm (scope_vec U fo fin) (fst x) (snd x))
+          (combine qs rs) = true.
+Proof.
+  intros U has_scope c t kn knm fo fin b qs b' rs H. induction H; intros Hr Hwf Hkn Hfin.
+  - reflexivity.
+  - cbn [combine forallb fst snd]. apply andb_true_iff. split.
+    + eapply outcome_open_ok; eauto.
+      * apply Hr. left. reflexivity.
+      * intros p. pose proof (proj1 (outcome_mono _ _ _ _ _ _ _ H) p).
+        pose proof (outcomes_mono _ _ _ _ _ _ _ H0 p). specialize (Hfin p). lia.
+    + apply IHoutcomes; auto. intros q0 Hq0. apply Hr. right. exact Hq0.
+Qed.
+
+(* handlers that ran without a nonce: live, accepting, on opens with a protocol in common *)
+Lemma outcomes_un : forall c t kn b qs b' rs, outcomes c t kn b qs b' rs ->
+  forallb (fun x => live_match t (fst x) (snd x)) (flat_map o_un rs) = true /\
+  Z.of_nat (length (flat_map o_un rs)) <=
+  count_if (fun x => common t (fst x) && negb (obtained (snd x))) (combine qs rs).
+Proof.
+  intros c t kn b qs b' rs H. induction H.
+  - cbn. split; [reflexivity|lia].
+  - destruct IHoutcomes as [IH1 IH2]. cbn [flat_map combine]. rewrite forallb_app, app_length, count_if_cons.
+    cbn [fst snd].
+    destruct H as [p h b' _ _ _ _ _ _ _ | code _ | p b' _ _ _ _ | p h Hin Hf]; cbn [o_un obtained_res fail_res use_failed forallb length andb].
+    + split; [exact IH1|]. destruct (_ && _); lia.
+    + split; [exact IH1|]. destruct (_ && _); lia.
+    + split; [exact IH1|]. destruct (_ && _); lia.
+    + split.
+      * cbn [fst snd]. rewrite (find_handler_live_match t p h Hf). exact IH1.
+      * assert (Hc : common t q = true).
+        { unfold common. apply existsb_exists. exists p. split; [exact Hin|].
+          rewrite <- supports_matched. unfold supports. rewrite Hf. reflexivity. }
+        rewrite Hc. unfold obtained in *. cbn [o_res o_use Z.eqb andb negb]. lia.
+Qed.
+
+Lemma obt_obtained : forall p reg, obtained (obtained_res p reg) = true.
+Proof. reflexivity. Qed.
+Lemma obt_fail : forall code, obtained (fail_res code) = false.
+Proof. intros. unfold obtained, fail_res. cbn [o_res o_use]. apply andb_false_r. Qed.
+Lemma obt_use : forall p, obtained (use_failed p) = false.
+Proof. reflexivity. Qed.
+Lemma obt_refused : forall l, obtained (mkO 2 (-1) (-1) (-1) (-1) 0 (-1) (-1) l) = false.
+Proof. reflexivity. Qed.
+
+(* exact accounting: each scope grows by the number of obtained streams bound to it *)
+Lemma outcomes_counts : forall c t kn b qs b' rs, outcomes c t kn b qs b' rs ->
+  forall q, b_out b' q = b_out b q + count_if (fun r => obtained r && (o_dp r =? q)) rs /\
+            b_in b' q = b_in b q + count_if (fun r => obtained r && (o_dp r =? q)) rs.
+Proof.
+  intros c t kn b qs b' rs H. induction H; intros x.
+  - cbn. lia.
+  - rewrite count_if_cons. destruct (IHoutcomes x) as [IHo IHi]. rewrite IHo, IHi.
+    destruct H as [p h b' _ _ Eo Ei _ _ _ | code _ | p b' _ [Eo [Ei _]] _ _ | p h _ _].
+    + rewrite Eo, Ei, obt_obtained. unfold upd. cbn [obtained_res o_dp andb].
+      rewrite (Z.eqb_sym p x). destruct (x =? p) eqn:E; [apply Z.eqb_eq in E; subst|]; lia.
+    + rewrite obt_fail. cbn [andb]. lia.
+    + rewrite Eo, Ei, obt_use. cbn [andb]. lia.
+    + rewrite obt_refused. cbn [andb]. lia.
+Qed.
